@@ -279,6 +279,9 @@ def handle(cmd, args):
     r = py_mm.handle(cmd, args)
     if r is not None:
         return r
+    if cmd in ('kconv', 'ktrace', 'kmodule'):
+        from harness.py import py_kore
+        return py_kore.handle(cmd, args)
     if cmd.startswith('taut-'):
         from harness.py import py_taut
         r = py_taut.handle(cmd, args)
